@@ -1428,6 +1428,17 @@ func init() {
 			if tier == "thorough" {
 				maxN = 300
 			}
+			// observation gaps (zz_verif_obsgap.go): two values, two ids, Observe in the alphabet
+			for _, cfg := range vSweepCfgs()[:7] {
+				cfg := cfg
+				sh = append(sh, vShard{Name: "obsgap/" + strings.ReplaceAll(cfg.String(), " ", ","), Run: func(c *vCtx) {
+					in := newKindSys(c, cfg, 2)
+					in.vals = in.vals[:2]
+					in.noPrepared = true
+					in.cfgS += " obsgap"
+					vBFS(c, &vObsGapSys{inner: in}, 6)
+				}})
+			}
 			bdepth := 3
 			if tier == "thorough" {
 				bdepth = 4
@@ -1487,6 +1498,15 @@ func init() {
 				fmt.Sscanf(v.Config[i:], " idbase=%d", &b)
 				vIDBase = b
 				defer func() { vIDBase = 0 }()
+			}
+			if strings.HasSuffix(v.Config, " obsgap") {
+				in := newKindSys(c, vParseVecCfg(v.Config), 2)
+				in.vals = in.vals[:2]
+				in.noPrepared = true
+				in.cfgS = v.Config
+				vReplayHist(&vObsGapSys{inner: in}, v.History)
+				_, ok := c.viol[v.Sig()]
+				return ok
 			}
 			if i := strings.Index(v.Config, " endurance n="); i >= 0 {
 				var n int
